@@ -10,7 +10,7 @@ for p in "${patches[@]}"; do
   scratch=$(mktemp -d /tmp/selftest.XXXXXX)
   git -C /repo worktree add -q --detach "$scratch/repo" HEAD 2>/dev/null || { cp -r /repo "$scratch/repo"; }
   if ! git -C "$scratch/repo" apply "$(readlink -f "$p")"; then echo "SELFTEST $prop $(basename $p): patch does not apply"; fail=1; else
-    out=$(REPO="$scratch/repo" bin/govc check -root "$scratch/repo" -verif "$(pwd)" -tier quick -noevidence "$prop" 2>&1); rc=$?
+    out=$(REPO="$scratch/repo" bin/govc check -root "$scratch/repo" -verif "$(pwd)" -tier quick -noevidence -failfast "$prop" 2>&1); rc=$?
     n=$(echo "$out" | grep -c '^VIOLATION')
     first=$(echo "$out" | grep '^VIOLATION' | head -1 | sed 's/.*replays\/[^/]*\///; s/\.json.*//')
     if [ $rc -eq 1 ] && [ $n -gt 0 ]; then echo "SELFTEST $prop $(basename $p): caught ($n violations, first: $first)"; else echo "SELFTEST $prop $(basename $p): MISSED (rc=$rc)"; echo "$out" | tail -3; fail=1; fi
